@@ -540,3 +540,52 @@ impl ScopeGraph {
         idents.join(".")
     }
 }
+
+#[cfg(feature = "verif-hooks")]
+impl ScopeGraph {
+    /// Verification hook (C13): one line per scope, in allocation order:
+    /// `printed|parent printed|alias>scope.ident,…|ident:kind,…`
+    /// (`@` is the root scope, `-` no parent).
+    pub fn verif_c13_dump(&self) -> Vec<String> {
+        let show = |s: ScopeRef| {
+            let p = self.print_scope(s);
+            if p.is_empty() { "@".to_string() } else { p }
+        };
+        let mut out = Vec::new();
+        for (i, s) in self.scopes.iter().enumerate() {
+            let me = ScopeRef(i);
+            let parent = s.parent.map_or("-".to_string(), show);
+            let imports: Vec<String> = s
+                .imports
+                .iter()
+                .map(|(alias, (_, target))| {
+                    format!("{alias}>{}.{}", show(target.scope), target.ident)
+                })
+                .collect();
+            let decls: Vec<String> = self
+                .declarations_in(me)
+                .map(|d| {
+                    let kind = match &d.kind {
+                        DeclarationKind::Value(ValueKind::Local, _) => "local",
+                        DeclarationKind::Value(ValueKind::Constant, _) => "const",
+                        DeclarationKind::Value(ValueKind::Context(_), _) => "ctx",
+                        DeclarationKind::Type(_) => "ty",
+                        DeclarationKind::Function(_) => "fn",
+                        DeclarationKind::Module => "mod",
+                        DeclarationKind::Method(_) => "method",
+                        DeclarationKind::Enum(_) => "enum",
+                        DeclarationKind::TypeParam(_) => "tparam",
+                    };
+                    format!("{}:{kind}", d.name.ident)
+                })
+                .collect();
+            out.push(format!(
+                "{}|{parent}|{}|{}",
+                show(me),
+                imports.join(","),
+                decls.join(",")
+            ));
+        }
+        out
+    }
+}
